@@ -18,7 +18,8 @@
  * One output line per job:
  *   <lineno> wl=<w> mode=<m> k=<k> var=<v> status=<ok|exit:N|asan|ubsan|sig:N|timeout> ncalls=<n> nfaults=<n>
  *            fkind=<stdio kind of the first failed call or -> rets=<name:rc:ok,...> allok=<0|1>
- *            same=<0|1> firstdiff=<offset|-1> size=<bytes> datasame=<0|1> nondet=<0|1> kinds=<one letter per call>
+ *            same=<0|1> firstdiff=<offset|-1> size=<bytes> datasame=<0|1> nondet=<0|1>
+ *            where=<library functions on the stack at the first fault, innermost first> kinds=<one letter per call>
  * `same` compares the bytes of the resulting file with those of the fault-free run of the same workload (done
  * first, twice, in the same invocation: nondet=1 if those two differ); `datasame` compares a hash of all data the
  * workload's read calls delivered.
@@ -55,6 +56,8 @@ struct result {
     struct ret rets[MAXRETS];
     unsigned long long datahash;
     int  finished;
+    void *pcs[24];        /* return addresses at the first injected fault (symbolized by the parent when needed) */
+    int   npcs;
     /* function-level runs */
     char pre[600], post[300];
 };
@@ -75,6 +78,23 @@ int    __real_fflush(FILE *);
 int    __real_fclose(FILE *);
 
 void __sanitizer_print_stack_trace(void);
+void __sanitizer_symbolize_pc(void *pc, const char *fmt, char *out, size_t size);
+#include <execinfo.h>
+/* names of the library functions on the stack (diagnostic only: used to tell a recorded known finding from any other
+   violation; never compared between runs) */
+static void where_am_i(void) { RES->npcs = backtrace(RES->pcs, 24); }
+static void where_names(const struct result *r, char *out, size_t size)
+{
+    int len = 0;
+    out[0] = 0;
+    for (int i = 2; i < r->npcs && len < (int)size - 48; i++) {
+        char nm[128] = "";
+        __sanitizer_symbolize_pc(r->pcs[i], "%f", nm, sizeof nm);
+        if (!nm[0] || !strncmp(nm, "__wrap_", 7) || !strncmp(nm, "__interceptor", 13) || !strcmp(nm, "tick")) continue;
+        if (!strncmp(nm, "wl_", 3) || !strcmp(nm, "main") || !strcmp(nm, "run_child") || !strcmp(nm, "fn_body")) break;
+        len += snprintf(out + len, size - len, "%s%s", len ? "<" : "", nm);
+    }
+}
 static int tick(char kind)
 {
     if (!armed) return 0;
@@ -83,6 +103,7 @@ static int tick(char kind)
     if (i < MAXCALLS) RES->kinds[i] = f ? (char)toupper(kind) : kind;
     if (f) {
         RES->nfaults++;
+        if (RES->nfaults == 1) where_am_i();
         if (getenv("C16_TRACE") && RES->nfaults == 1) __sanitizer_print_stack_trace();   /* where the fault hits */
         errno = variant ? ENOSPC : EIO;
     }
@@ -704,8 +725,12 @@ int main(int argc, char **argv)
             if (!o.res.rets[i].ok) allok = 0;
         }
         long fd = imgdiff(b->img, o.img);
-        printf(" allok=%d same=%d firstdiff=%ld size=%ld datasame=%d nondet=%d kinds=%s\n", allok, fd == -1, fd, o.img.n,
-               o.res.datahash == b->res.datahash, BASE[w].nondet, md[0] == 'n' ? o.res.kinds : "-");
+        char where[400] = "";
+        int  datasame = o.res.datahash == b->res.datahash;
+        if (strcmp(o.status, "ok") != 0 || (allok && (fd != -1 || !datasame)) || getenv("C16_WHERE"))
+            where_names(&o.res, where, sizeof where);      /* only for runs that will be reported */
+        printf(" allok=%d same=%d firstdiff=%ld size=%ld datasame=%d nondet=%d where=%s kinds=%s\n", allok, fd == -1, fd,
+               o.img.n, datasame, BASE[w].nondet, where[0] ? where : "-", md[0] == 'n' ? o.res.kinds : "-");
         if (md[0] != 'n') free(o.img.b);
     }
     return 0;
